@@ -26,6 +26,8 @@ META = {
 META['explanation'] += ' ' + 'R7: serialiser functions apply no strict text codec to field values. R8: serialisers store nothing into the rendered object (effect analysis of C13.R1 on the serialiser entry points).'
 META['explanation'] += ' ' + 'R10: float valued fields refuse NaN / infinities (their __attrs_post_init__ evaluated). R11: every return of the Markdown functions is a Markdown result or a (flag, text) pair (def-use analysis of text). R12: a list display is not concatenated with a field validated by deep_iterable only. R13: _json_result / _markdown_result evaluated with the real datetime type on pairs of equal leaf values.'
 
+META['explanation'] += ' ' + 'R14: native value of an OPTIONAL ASN.1 field tested before use (field tables read from asn1crypto). R15: modulus / prime of a parsed RSA / DSA key refused unless positive (abstract run; syntactic reading where the run does not reach). R16: text of parameter objects against null fields of the data tables. R17: rendering calls no parse entry point. R18: parsable classes with a plain initialiser have a rendering.'
+
 SET_NAMES = {'set', 'frozenset'}
 
 
